@@ -46,6 +46,8 @@ type c14Case struct {
 	Trace    [][]int `json:"trace,omitempty"`
 	Known    string  `json:"known,omitempty"`    // the scenario exercises this known finding
 	NoListen bool    `json:"nolisten,omitempty"` // keys only (no --listen): for --with-shell scenarios
+	Shape    string  `json:"shape,omitempty"`    // kids: shape of the child command (plain pipeline list subshell ...)
+	Child    string  `json:"child,omitempty"`    // kids: which child / which trigger
 }
 
 type c14Step struct {
@@ -100,25 +102,44 @@ func c14GenConstrain(r *RNG) c14Case {
 // ---------------------------------------------------------------- session driving
 
 type c14Run struct {
-	s        *Session
-	pid      int
-	mark     string
-	startErr string
-	hang     string
-	exited   bool
-	code     int
-	hup      bool
-	slave    *os.File
-	id       string
-	screen   []byte
-	postErr  error
+	s         *Session
+	pid       int
+	mark      string
+	startErr  string
+	hang      string
+	exited    bool
+	code      int
+	hup       bool
+	slave     *os.File
+	id        string
+	screen    []byte
+	postErr   error
+	goneTicks uint64   // when the fzf process was seen to be gone (clock ticks since boot)
+	kidsLeft  []string // processes of a cancelled command that were still alive 10 s after the cancellation
 }
 
 func (r *c14Run) close() {
 	if r.slave != nil {
 		r.slave.Close()
 	}
+	born := r.goneTicks
+	if born == 0 {
+		born = c14NowTicks()
+	}
 	r.s.Close()
+	c14KillSurvivors(r.pid, r.mark, born) // hygiene: long-running children of a failing tree must not pile up
+}
+
+// kids: processes of the session other than fzf itself
+func (r *c14Run) kids() []string {
+	out := []string{}
+	self := strconv.Itoa(r.pid) + ":"
+	for _, p := range c14Survivors(r.pid, r.mark, 0) {
+		if !strings.HasPrefix(p, self) {
+			out = append(out, p)
+		}
+	}
+	return out
 }
 
 func c14Start(c *Ctx, cs c14Case, id string) (*c14Run, error) {
@@ -177,6 +198,19 @@ func (r *c14Run) step(st c14Step) {
 		for time.Now().Before(deadline) && !s.Exited() && len(c14TmpLeft(s.Dir)) > st.X {
 			time.Sleep(2 * time.Millisecond)
 		}
+	case "waitkids": // eventually: at least X processes besides fzf belong to the session (the command runs and has forked)
+		deadline := time.Now().Add(10 * time.Second)
+		for time.Now().Before(deadline) && !s.Exited() && len(r.kids()) < st.X {
+			time.Sleep(2 * time.Millisecond)
+		}
+	case "nokids": // eventually (10 s): the cancelled command and everything it forked is gone while fzf goes on
+		deadline := time.Now().Add(10 * time.Second)
+		left := r.kids()
+		for len(left) > 0 && time.Now().Before(deadline) && !s.Exited() {
+			time.Sleep(5 * time.Millisecond)
+			left = r.kids()
+		}
+		r.kidsLeft = left
 	case "waittmpmin": // eventually: at least X temp files exist
 		deadline := time.Now().Add(10 * time.Second)
 		for time.Now().Before(deadline) && !s.Exited() && len(c14TmpLeft(s.Dir)) < st.X {
@@ -243,6 +277,9 @@ func (r *c14Run) exit(how string) {
 		}
 	}
 	r.exited, r.code = ok, code
+	if ok {
+		r.goneTicks = c14NowTicks()
+	}
 	if !ok && os.Getenv("C14_DEBUG") != "" {
 		st, _ := os.ReadFile(fmt.Sprintf("/proc/%d/status", r.pid))
 		wch, _ := os.ReadFile(fmt.Sprintf("/proc/%d/wchan", r.pid))
@@ -254,6 +291,15 @@ func (r *c14Run) exit(how string) {
 		}
 		dbg, _ := os.OpenFile(os.Getenv("C14_DEBUG"), os.O_APPEND|os.O_CREATE|os.O_WRONLY, 0644)
 		defer dbg.Close()
+		fmt.Fprintf(dbg, "STOPPED CHILD: %v\n", c14StoppedChild(r.pid))
+		if ents, err := os.ReadDir("/proc"); err == nil {
+			for _, e := range ents {
+				b, err := os.ReadFile("/proc/" + e.Name() + "/stat")
+				if err == nil && strings.Contains(string(b), fmt.Sprintf(" %d ", r.pid)) {
+					fmt.Fprintf(dbg, "PROC %s\n", b)
+				}
+			}
+		}
 		r.s.Signal(syscall.SIGQUIT)
 		time.Sleep(1500 * time.Millisecond)
 		scr := r.s.Screen()
@@ -261,7 +307,7 @@ func (r *c14Run) exit(how string) {
 			fmt.Fprintf(dbg, "GOROUTINES:\n%s\n", strings.ReplaceAll(string(scr[i:min(len(scr), i+30000)]), "\r\n", "\n"))
 		}
 		fmt.Fprintf(dbg, "POSTERR %v\n", r.postErr)
-		fmt.Fprintf(dbg, "C14_DEBUG not exited after %s: pid %d\n%s\nwchan=%s fds=%v\nsurvivors=%v\n", how, r.pid, st, wch, names, c14Survivors(r.pid, r.mark))
+		fmt.Fprintf(dbg, "C14_DEBUG not exited after %s: pid %d\n%s\nwchan=%s fds=%v\nsurvivors=%v\n", how, r.pid, st, wch, names, c14Survivors(r.pid, r.mark, 0))
 	}
 }
 
@@ -280,7 +326,7 @@ func (r *c14Run) exit0Keys(how string) {
 func (r *c14Run) survivors(wait time.Duration) []string {
 	deadline := time.Now().Add(wait)
 	for {
-		sv := c14Survivors(r.pid, r.mark)
+		sv := c14Survivors(r.pid, r.mark, r.goneTicks)
 		if len(sv) == 0 || time.Now().After(deadline) {
 			return sv
 		}
@@ -324,7 +370,7 @@ func c14CheckClean(c *Ctx, cs c14Case, r *c14Run, wantAlt bool, wantTmp int, nam
 		return false
 	}
 	if !r.exited {
-		d := Disagreement{Kind: "spec", Name: name + ".exits", Input: cs, Impl: "still running 30 s after " + cs.Exit, Expect: "process exits", Known: c14KnownHang(cs)}
+		d := Disagreement{Kind: "spec", Name: name + ".exits", Input: cs, Impl: fmt.Sprintf("still running 30 s after %s (a direct child in state T: %v)", cs.Exit, c14StoppedChild(r.pid)), Expect: "process exits", Known: r.knownHang(cs)}
 		rep.Disagreement(d)
 		return false
 	}
@@ -342,6 +388,9 @@ func c14CheckClean(c *Ctx, cs c14Case, r *c14Run, wantAlt bool, wantTmp int, nam
 		}
 		if len(mv.L) != 2 || !mv.L[0].Equal(want) || mv.L[1].I != 1 {
 			tail := scr[max(0, len(scr)-400):]
+			if d := os.Getenv("C14_DUMP"); d != "" {
+				os.WriteFile(fmt.Sprintf("%s/scr-%s-%d.bin", d, r.id, time.Now().UnixNano()), scr, 0644)
+			}
 			fail("modes_restored", fmt.Sprintf("%s exit=%d tail=%q", mv.String(), r.code, tail), L(want, B(true)).String()+" [1000 1002 1003 1006 1015 2004 1049 ?25 ?7 saved orphan others] closed")
 		}
 		c14FreshOnce.Do(func() { c14Fresh = c14FreshTermios() })
@@ -401,6 +450,35 @@ func c14KnownHang(cs c14Case) string {
 		}
 	}
 	return ""
+}
+
+// knownHang: the recorded hangs, each recognised by what is specific to it.  (The ctrl-z freeze -- a child stopped
+// between fork and exec -- was repaired in e24ecfc; a stopped direct child is still named in the report.)
+func (r *c14Run) knownHang(cs c14Case) string {
+	return c14KnownHang(cs)
+}
+
+// c14StoppedChild: some process whose parent is pid is in state T (stopped by a job-control signal)
+func c14StoppedChild(pid int) bool {
+	ents, _ := os.ReadDir("/proc")
+	for _, e := range ents {
+		if _, err := strconv.Atoi(e.Name()); err != nil {
+			continue
+		}
+		b, err := os.ReadFile("/proc/" + e.Name() + "/stat")
+		if err != nil {
+			continue
+		}
+		i := bytes.LastIndexByte(b, ')')
+		if i < 0 {
+			continue
+		}
+		f := strings.Fields(string(b[i+1:]))
+		if len(f) >= 2 && (f[0] == "T" || f[0] == "t") && f[1] == strconv.Itoa(pid) {
+			return true
+		}
+	}
+	return false
 }
 
 // c14CrashText: the crash excerpt with what precedes it on the terminal (the signal / panic message)
@@ -557,6 +635,7 @@ func c14GenLife(r *RNG, i int) c14Case {
 func c14Startup(c *Ctx, cs c14Case) {
 	rep := c.Rep
 	scr, code, ta, dir, pid, err := c14StartPlain(c, cs.Args, string(cs.Input), 80, 24, 10*time.Second)
+	gone := c14NowTicks()
 	defer os.RemoveAll(dir)
 	if err != nil {
 		return
@@ -586,7 +665,7 @@ func c14Startup(c *Ctx, cs c14Case) {
 	if left := c14TmpLeft(dir); len(left) > 0 {
 		fail("tempfiles_removed", left, "none")
 	}
-	if sv := c14Survivors(pid, ""); len(sv) > 0 {
+	if sv := c14Survivors(pid, "", gone); len(sv) > 0 {
 		fail("no_child_left", sv, "none")
 	}
 }
@@ -705,6 +784,90 @@ func c14GenTmp(r *RNG, i int) c14Case {
 	}
 	cs.Trace = append(cs.Trace, []int{9})
 	return cs
+}
+
+// ---------------------------------------------------------------- (E) child processes with forking command shapes
+
+// The shell started for a preview / reload / execute command forks when the command is a pipeline, a list, a subshell,
+// a background job ...; a simple command is exec'ed in its place. "No child left behind" must hold for the whole
+// process GROUP, on exit and on cancellation, so every child-process scenario is run with every shape.
+var c14Shapes = []struct {
+	name string
+	cmd  func(d string) string
+	kids int // processes expected at least while it runs
+}{
+	{"plain", func(d string) string { return "sleep " + d }, 1},
+	{"pipeline", func(d string) string { return "sleep " + d + " | cat" }, 2},
+	{"list", func(d string) string { return "sleep " + d + "; echo x" }, 2},
+	{"subshell", func(d string) string { return "(sleep " + d + "; echo y)" }, 2},
+	{"background", func(d string) string { return "sleep " + d + " & wait" }, 2},
+	{"andor", func(d string) string { return "true && sleep " + d + " || true" }, 2},
+	{"nested", func(d string) string { return "sh -c 'sleep " + d + "; echo z' | cat" }, 2},
+	{"two-jobs", func(d string) string { return "sleep " + d + " & sleep " + d + " & wait" }, 3},
+}
+
+func c14GenKids(r *RNG, i int) c14Case {
+	sh := c14Shapes[i%len(c14Shapes)]
+	scen := (i / len(c14Shapes)) % 6
+	exits := []string{"accept", "abort", "ctrl-c", "esc", "sigterm", "enter", "sigint"}
+	cs := c14Case{Kind: "kids", Input: c14Lines, Cols: 80, Rows: 24, Exit: Pick(r, exits), Shape: sh.name}
+	if r.Bool() {
+		cs.Args = append(cs.Args, "--height", "50%")
+	}
+	long := sh.cmd("30")
+	switch scen {
+	case 0: // exit while the preview command runs
+		cs.Args = append(cs.Args, "--preview", long)
+		cs.Steps = []c14Step{{T: "waitload"}, {T: "waitkids", X: sh.kids}}
+		cs.Child = "preview/exit"
+	case 1: // the preview command is cancelled by moving to another line (quick preview there), then exit
+		cs.Args = append(cs.Args, "--preview", "test {} = alpha && { "+long+"; }; echo done")
+		cs.Steps = []c14Step{{T: "waitload"}, {T: "waitkids", X: sh.kids}, {T: "postsync", S: "up"}, {T: "nokids"}}
+		cs.Child = "preview/cancel"
+	case 2: // exit while a reload command runs
+		cs.Steps = []c14Step{{T: "waitload"}, {T: "post", S: "reload(" + long + ")"}, {T: "waitkids", X: sh.kids}}
+		cs.Child = "reload/exit"
+	case 3: // a reload command is cancelled by the next reload, then exit
+		cs.Steps = []c14Step{{T: "waitload"}, {T: "post", S: "reload(" + long + ")"}, {T: "waitkids", X: sh.kids},
+			{T: "post", S: "reload(echo quick)"}, {T: "nokids"}}
+		cs.Child = "reload/cancel"
+	case 4: // exit while the command of start:reload runs
+		cs.Args = append(cs.Args, "--bind", "start:reload("+long+")")
+		cs.Steps = []c14Step{{T: "waitkids", X: sh.kids}}
+		cs.Child = "start-reload/exit"
+	case 5: // SIGTERM while execute / execute-silent runs a short command: fzf leaves when the command is done
+		act := Pick(r, []string{"execute", "execute-silent"})
+		cs.Steps = []c14Step{{T: "waitload"}, {T: "post", S: act + "(" + sh.cmd("0.4") + ")"}, {T: "waitkids", X: sh.kids}}
+		cs.Exit = "sigterm"
+		cs.Child = act + "/sigterm"
+	}
+	return cs
+}
+
+func c14Kids(c *Ctx, cs c14Case, id string) {
+	rep := c.Rep
+	r, err := c14Start(c, cs, id)
+	if err != nil {
+		rep.Disagreement(Disagreement{Kind: "spec", Name: "kids.starts", Input: cs, Impl: err.Error(), Expect: "fzf starts"})
+		return
+	}
+	defer r.close()
+	for _, st := range cs.Steps {
+		r.step(st)
+	}
+	rep.ImplTraces++
+	rep.SpecChecks++
+	if len(r.kidsLeft) > 0 {
+		rep.Disagreement(Disagreement{Kind: "spec", Name: "kids.cancelled_command_gone", Input: cs, Impl: r.kidsLeft,
+			Expect: "10 s after the cancellation no process of the cancelled command (its whole process group) is left"})
+	}
+	r.exit(cs.Exit)
+	c14CheckClean(c, cs, r, false, 0, "kids")
+	key, _ := json.Marshal(cs)
+	rep.Eval(string(key), cs.Shape != "plain")
+	rep.Count("kids:" + cs.Child)
+	rep.Count("kids:shape=" + cs.Shape)
+	rep.Sample(cs)
 }
 
 // ---------------------------------------------------------------- (D) robustness
@@ -904,7 +1067,7 @@ func c14Robust(c *Ctx, cs c14Case, id string) {
 			}
 			dbg.Close()
 		}
-		rep.Disagreement(Disagreement{Kind: "spec", Name: "robust.responsive", Input: cs, Impl: "GET / not answered within 3 x 10 s and the process is alive", Expect: "answers or has exited", Known: c14KnownHang(cs)})
+		rep.Disagreement(Disagreement{Kind: "spec", Name: "robust.responsive", Input: cs, Impl: "GET / not answered within 3 x 10 s and the process is alive", Expect: "answers or has exited", Known: r.knownHang(cs)})
 		return
 	}
 	if !r.s.Exited() {
@@ -914,6 +1077,7 @@ func c14Robust(c *Ctx, cs c14Case, id string) {
 	if early {
 		_, code, _ := r.s.Wait(time.Second)
 		r.exited, r.code = true, code
+		r.goneTicks = c14NowTicks()
 		rep.Count("robust:exited-by-keys")
 	} else {
 		r.exit(cs.Exit)
@@ -955,6 +1119,8 @@ func c14Run1(c *Ctx, cs c14Case, id string) {
 		c14Startup(c, cs)
 	case "tmp":
 		c14Tmp(c, cs, id)
+	case "kids":
+		c14Kids(c, cs, id)
 	case "robust":
 		c14Robust(c, cs, id)
 	}
@@ -1033,6 +1199,10 @@ func runC14(c *Ctx) {
 	nt := c.N(72, 900)
 	for i := 0; i < nt; i++ {
 		cases = append(cases, c14GenTmp(c.Rng, i))
+	}
+	nk := c.N(96, 960)
+	for i := 0; i < nk; i++ {
+		cases = append(cases, c14GenKids(c.Rng, i))
 	}
 	nr := c.N(400, 8000)
 	for i := 0; i < nr; i++ {
